@@ -25,7 +25,7 @@ ASSUMPTIONS = ['the ungated twin (same construction code, no clockDriver assignm
                'enable wires are 1 bit wide']
 BOUNDS = {'quick': 'blocks Reg(w=2), Counter(w=2), TReg, DelayLine(2), ClockSyncFSM; placements self/parent/grand/nested; enable from input / '
                    'from a register inside the gated domain / from a register in another domain; one or two gated domains',
-          'thorough': 'same plus three-domain designs and width-2 DelayLine, Stack, SynchronousMemory under gating'}
+          'thorough': 'same plus three-domain designs for the five small blocks, and width-2 DelayLine, Stack, SynchronousMemory under gating (one and two domains)'}
 
 BLOCKS = ['Reg', 'Counter', 'TReg', 'DelayLine', 'ClockSyncFSM']
 PLACES = ['self', 'parent', 'grand', 'nested']
@@ -46,7 +46,8 @@ def shards(tier):
         # drivers assigned after a first getSimulator() (the simulator is then re-obtained)
         out.append({'block': b, 'place': 'parent', 'en': 'input', 'domains': 1, 'late': 1})
         out.append({'block': b, 'place': 'grand', 'en': 'self', 'domains': 1, 'late': 1})
-        if tier == 'thorough':
+        if tier == 'thorough' and b in BLOCKS:
+            # three domains only for the small blocks (the product of three copies of the larger ones takes over 30 min)
             out.append({'block': b, 'place': 'parent', 'en': 'input', 'domains': 3})
     return out
 
